@@ -440,6 +440,46 @@ func (g *Gen) nilCompareHandlers(d int) []Stmt {
 		&If{C: bin("<", v(a), v(b)), Then: []Stmt{emit(str("lt-true"))}, Else: []Stmt{emit(str("lt-false"))}, HasElse: true}}
 }
 
+// mixedTypeCompare: operands of DIFFERENT types are never compared through a handler, even when both
+// carry the identical __lt/__le function (table vs string with a handler on the string metatable):
+// "attempt to compare"; same-type operands with the same handler do call it.
+func (g *Gen) mixedTypeCompare(d int) []Stmt {
+	g.use("meta-compare-different-types-same-handler")
+	h, mt, t, u := g.fresh("ch"), g.fresh("cm"), g.fresh("ct"), g.fresh("cu")
+	smt := call("getmetatable", str(""))
+	cmp := func(op string, a, b Expr) Stmt { return emit(call("pcall", &Func{Body: []Stmt{ret(bin(op, a, b))}})) }
+	ops := []string{"<", "<=", ">", ">="}
+	op1, op2 := ops[g.R.Intn(4)], ops[g.R.Intn(4)]
+	return []Stmt{local1(h, &Func{Params: []string{"a", "b"}, Body: []Stmt{emit(str("cmp-handler"), call("type", v("a")), call("type", v("b"))), ret(&True{})}}),
+		local1(mt, &Table{Items: []TItem{{Kind: 1, Name: "__lt", E: v(h)}, {Kind: 1, Name: "__le", E: v(h)}}}),
+		local1(t, call("setmetatable", &Table{}, v(mt))), local1(u, call("setmetatable", &Table{}, v(mt))),
+		set(&Index{E: smt, K: str("__lt")}, v(h)), set(&Index{E: smt, K: str("__le")}, v(h)),
+		cmp(op1, v(t), str("a")), cmp(op2, str("a"), v(t)), cmp(op1, v(t), num(1)), cmp(op2, num(1), v(t)), cmp(op1, v(t), v(u)), cmp(op2, str("a"), str("b")),
+		set(&Index{E: smt, K: str("__lt")}, &Nil{}), set(&Index{E: smt, K: str("__le")}, &Nil{})}
+}
+
+// gotoBackwardCaptured: a backward goto written inside a nested block that captures nothing, to a
+// label of the enclosing block followed by a captured local: every pass has its own variable.
+func (g *Gen) gotoBackwardCaptured(d int) []Stmt {
+	g.use("goto-backward-over-captured-local")
+	fs, c, l := g.fresh("gf"), g.fresh("gc"), g.label()
+	jump := []Stmt{&Goto{L: l}}
+	var nest Stmt
+	switch g.R.Intn(3) {
+	case 0:
+		nest = &If{C: bin("<", v(c), num(3)), Then: jump}
+	case 1:
+		nest = &Do{Body: []Stmt{&If{C: bin("<", v(c), num(3)), Then: []Stmt{&Do{Body: jump}}}}}
+	default:
+		nest = &While{C: bin("<", v(c), num(3)), Body: jump}
+	}
+	return []Stmt{&Do{Body: []Stmt{&Local{Names: []string{fs, c}, Es: []Expr{&Table{}, num(0)}}, &Label{L: l},
+		local1("x", bin("*", v(c), num(10))),
+		set(&Index{E: v(fs), K: bin("+", &Un{Op: "#", A: v(fs)}, num(1))}, &Func{Body: []Stmt{set(v("x"), bin("+", v("x"), num(1))), ret(v("x"))}}),
+		set(v(c), bin("+", v(c), num(1))), nest,
+		emit(&Call{F: &Index{E: v(fs), K: num(1)}}, &Call{F: &Index{E: v(fs), K: num(1)}}, &Call{F: &Index{E: v(fs), K: num(2)}}, &Call{F: &Index{E: v(fs), K: num(3)}})}}}
+}
+
 // handlerReinstall: a handler removed from a metatable, missed once, and installed again must be
 // honoured again (no stale "this metatable has no such handler" knowledge), for __index,
 // __newindex and __call.
